@@ -49,7 +49,7 @@ func c03Region(c *Ctx) *RuleResult {
 	p := c.P
 	e := sharedLockEngine(c)
 	field := p.LookupField(schedPkg, "InMemoryBuildQueue", "inFlightDeduplicationMap")
-	units := p.Units(schedPkg)
+	units := p.UnitsIn(schedPkg)
 	for _, w := range FieldWrites(units, field, false) {
 		as, ok := w.Node.(*ast.AssignStmt)
 		if !ok {
@@ -120,7 +120,7 @@ func c03GuardSym(c *Ctx) *RuleResult {
 		Doc: "insertions into the in-flight deduplication map are guarded by !DoNotCache of the action being scheduled; every deletion removes only the entry of the completing task: it is guarded by map[key] == task (or by !DoNotCache of that same task's action, mirroring the insertion guard)"}
 	p := c.P
 	field := p.LookupField(schedPkg, "InMemoryBuildQueue", "inFlightDeduplicationMap")
-	units := p.Units(schedPkg)
+	units := p.UnitsIn(schedPkg)
 	for _, w := range FieldWrites(units, field, false) {
 		u := w.Unit
 		info := u.Info()
@@ -174,7 +174,7 @@ func c03Final(c *Ctx) *RuleResult {
 	p := c.P
 	mapField := p.LookupField(schedPkg, "InMemoryBuildQueue", "inFlightDeduplicationMap")
 	respField := p.LookupField(schedPkg, "task", "executeResponse")
-	units := p.Units(schedPkg)
+	units := p.UnitsIn(schedPkg)
 	stores := FieldWrites(units, respField, false)
 	if len(stores) == 0 {
 		panic(anchorError("no store to task.executeResponse"))
@@ -222,7 +222,7 @@ func c03Last(c *Ctx) *RuleResult {
 	p := c.P
 	opsField := p.LookupField(schedPkg, "task", "operations")
 	complete := p.LookupFunc(schedPkg, "task.complete")
-	units := p.Units(schedPkg)
+	units := p.UnitsIn(schedPkg)
 	for _, w := range FieldWrites(units, opsField, false) {
 		if _, ok := w.Node.(*ast.CallExpr); !ok {
 			continue
@@ -261,6 +261,6 @@ func init() {
 		Level: "other",
 		Explanation: "Structural necessary conditions of in-flight deduplication, decided on all paths of the current source: lookup-miss and insert form one critical section; insert guarded by !DoNotCache; deletion removes only the completing task's own entry and happens exactly where the final response is stored; a departing operation completes the task only when it is the last. Does not decide the behaviour over all arrival orders (history property).",
 		Assumptions: []string{"the scheduler state is only touched under the big lock (decided by C01)", "anchors are the struct fields InMemoryBuildQueue.inFlightDeduplicationMap, task.operations, task.executeResponse"},
-		Rules:       []RuleFunc{c03Region, c03GuardSym, c03Final, c03Last},
+		Rules:       []RuleFunc{c03Region, c03GuardSym, c03Final, c03Last, schedWaiters},
 	})
 }
